@@ -278,7 +278,7 @@ def locate(toks, path):
 # arguments, `.await` dropped, ...).  Whether the shape occurs once or three times says nothing about the property, so a
 # count that differs from the declared one is logged, not fatal: occurrences that are left are either accepted by Verus
 # as they are or make the unit undecided (unsupported construct).  Only edits that carry a contract stay strict.
-STRICT_COUNT_KINDS = {"closure-contract"}
+STRICT_COUNT_KINDS = set()   # closure-contract too: a closure that is gone needs no contract; one left without contract is caught by the closure-growth rule
 
 
 class Item:
@@ -857,11 +857,14 @@ class Item:
             self.log.append({"kind": "pattern-norm", "match": "| _ |", "replace": "| _e |", "count": n,
                              "why": "Verus rejects `_` as a closure parameter; an unused parameter is named"})
 
-    def prepend_stmts(self, text):
+    def prepend_stmts(self, text, kind="auto-let"):
         """source statements (immutable `let`s of the enclosing function a lifted block refers to) at the start of the body"""
         o = self.body_open()
         ins = tokenize("\n" + text + "\n", line0=self.line)
         self.toks[o + 1:o + 1] = ins
+        if kind != "auto-let":
+            self.log.append({"kind": kind, "at": "body-start", "text": text.strip()})
+            return
         self.log.append({"kind": "auto-let", "text": text.strip(),
                          "why": "the lifted block refers to an immutable local of the enclosing function that is not a declared parameter; "
                                 "its `let` statement is copied in front of the block (re-evaluated at block entry: assumes a pure initializer)"})
